@@ -96,7 +96,7 @@ func maxTypeSize(td *TD) uintptr {
 // allocBound is the linear bound of oracle E: a constant, plus a per-input-octet cost that covers the
 // element size of the widest slice element (every SEQUENCE OF element takes at least two input octets).
 func allocBound(td *TD, n int) uint64 {
-	return 16384 + uint64(n)*(64+uint64(maxTypeSize(td)))
+	return 4096 + uint64(n)*(24+uint64(maxTypeSize(td)))
 }
 
 func isTimeErr(err error) bool {
@@ -157,6 +157,18 @@ func judge(v *harness.Verdict, td *TD, input []byte) triple {
 	}
 	if measureAlloc {
 		bound := allocBound(td, len(input))
+		// one-time lazy initialisations (time zone data, reflect caches) are not the decoder's allocation: an
+		// apparent excess is measured a second time and the smaller figure counts
+		if st.alloc > bound && st.panicked == "" {
+			if again := runFork(td, input, params); again.alloc < st.alloc {
+				st.alloc = again.alloc
+			}
+		}
+		if lx.alloc > bound && lx.panicked == "" {
+			if again := runFork(td, input, laxParams(params)); again.alloc < lx.alloc {
+				lx.alloc = again.alloc
+			}
+		}
 		if st.alloc > bound {
 			v.Failf("alloc-strict", "fork strict allocated %d bytes for %d input bytes (bound %d); %s", st.alloc, len(input), bound, where())
 		}
